@@ -167,10 +167,10 @@ def _init_worker():
         f = mod.subproc_toks
         if not getattr(f, "_c03_counting", False):
 
-            def counting_toks(line, *a, _f=f, **k):
+            def counting_toks(line, *a, _f=f, _m=mod.__name__.rpartition(".")[2], **k):
                 _WORK[0] += len(line)
                 if _WORK[0] > WORK_BUDGET:
-                    raise _Work()
+                    raise _Work(f"{_m}/greedy={bool(k.get('greedy', False))}")
                 return _f(line, *a, **k)
 
             counting_toks._c03_counting = True
@@ -221,8 +221,8 @@ def _guarded_parse_once(src, names):
         out = ("syntax", str(e)[:160])
     except _Budget:
         out = ("budget", f"> {PARSE_BUDGET} parser.parse calls")
-    except _Work:
-        out = ("work", f"> {WORK_BUDGET} characters handed to subproc_toks")
+    except _Work as e:
+        out = ("work:" + str(e), f"> {WORK_BUDGET} characters handed to subproc_toks")
     except _Alarm:
         out = ("alarm", f"> {WALL_S} cpu-s")
     except RecursionError as e:
@@ -392,7 +392,7 @@ def check_pair(chain, pos, want_exec=False):
     re_, ne, te = guarded_parse(expl, names)
     res = {"bare": bare, "explicit": expl, "parses": [nb, ne], "executed": 0}
     for side, r in (("bare", rb), ("explicit", re_)):
-        if r[0] in ("budget", "alarm", "work"):
+        if r[0] in ("budget", "alarm") or r[0].startswith("work"):
             res.update(status="hang", side=side, detail=list(r))
             return res
         if r[0] == "exc":
@@ -776,7 +776,7 @@ def _do_prefix(item):
         if dt > out["slow"]:
             out["slow"], out["slow_in"] = dt, s
         if kind in ("internal", "nonterm"):
-            if kind == "internal" or sig == "work":
+            if kind == "internal" or sig.startswith("work"):
                 m = b_minimise(s, kind, sig)  # every evaluation is bounded by the budgets
             else:
                 # a spinning input is not minimised (each attempt costs a full budget): first one of this worker
@@ -791,8 +791,9 @@ def b_violation(s, m, kind, sig, np_, dt):
         clause = "detection raised an internal exception (neither a program nor SyntaxError)"
         obs = f"{sig} for input {s!r}"
     else:
-        # blank lines only add retries (2 per line): the key names the line that keeps growing
-        key = f"B:nonterm:{sig}" + (f":{m.replace(chr(10), '')!r}" if sig == "work" else "")
+        # budget / alarm / work:<caller of subproc_toks>/<greedy pass?>; the minimal input is in the artefact (one growth
+        # mechanism fails for many small inputs: ` (]`, ` ](`, ` (!)`, ` (]a` ... preceded by blank lines)
+        key = f"B:nonterm:{sig}"
         clause = "detection did not terminate within the per-input budget"
         obs = f"{sig} budget exceeded ({np_} parser.parse calls, {dt:.2f} cpu-s) for input {s!r}; budgets: {PARSE_BUDGET} parser.parse calls, {WORK_BUDGET} characters through subproc_toks, {WALL_S} cpu-s"
     return {"key": key, "clause": clause, "case": {"part": "B", "input": s, "minimal": m}, "observed": obs, "expected": "a tree, None (empty input) or SyntaxError within the budget", "note": ""}
